@@ -1,7 +1,7 @@
 (* Property C14 -- a refused operation leaves the output untouched.
    Model: Model/Cmd.v interpreting the step order and OpenOptions flag expressions that tools/translate.py
    re-extracts from src/clone_cmd.rs and src/compress_cmd.rs into Gen/Generated.v on every run. *)
-From Bita Require Import Model.Base Gen.Generated Model.Cmd Proofs.CmdProofs.
+From Bita Require Import Model.Base Gen.Generated Model.Cmd Proofs.CmdProofs Proofs.CmdExact.
 
 Theorem C14_refusal_leaves_output_clone : forall env,
   let r := clone_cmd_model env in
@@ -34,7 +34,39 @@ Proof. intros [[|] [|]]; cbn; intros [Hd|Hd]; try discriminate Hd; reflexivity. 
 Theorem C14_pin_checked_before_output : pin_checked_before_output = true.
 Proof. reflexivity. Qed.
 
+(* exactness: the command ends without having written chunk data exactly when one of the four named refusals
+   applies (no further, unnamed refusal exists, and a command that is not refused reaches the write stage); whenever it
+   ends that way it failed, the output entry is what it was and its length was never set.
+   clone_refused env := archive invalid \/ pin mismatch \/ (output present /\ neither --force-create nor --seed-output)
+                        \/ (output is a block device shorter than the source) *)
+Theorem C14_clone_refusal_exact : forall env,
+  let r := clone_cmd_model env in
+     (clone_refused env <-> ~ In EWrites (s_eff r))
+  /\ (~ In EWrites (s_eff r) ->
+        s_failed r = true /\ s_out r = e_out env /\ (forall n, ~ In (ESetLen n) (s_eff r))).
+Proof. exact clone_refusal_exact. Qed.
+
+(* compress: refused exactly when the output exists and --force-create is absent; then nothing was written, the
+   output entry is what it was, and the temporary file was neither created nor removed *)
+Theorem C14_compress_refusal_exact : forall env,
+  let r := compress_cmd_model env in
+     (compress_refused env <-> ~ In EWrites (s_eff r))
+  /\ (~ In EWrites (s_eff r) -> s_failed r = true /\ s_out r = z_out env /\ ~ In (EUnlink 1) (s_eff r)
+        /\ (forall a b c d, ~ In (EOpenW 1 a b c d) (s_eff r))).
+Proof. exact compress_refusal_exact. Qed.
+
+(* non-vacuity of the other direction: --force-create over an existing longer regular file is NOT refused and ends
+   holding exactly the source *)
+Example C14_not_refused_example :
+  let env := {| e_flags := {| c_force_create := true; c_seed_output := false; c_verify_output := true |};
+                e_archive := AValid; e_pin := PinMatch; e_out := Reg [1;2;3]; e_src := [9;9] |} in
+  s_failed (clone_cmd_model env) = false /\ s_out (clone_cmd_model env) = Reg [9;9].
+Proof. vm_compute. split; reflexivity. Qed.
+
+
 Print Assumptions C14_refusal_leaves_output_clone.
 Print Assumptions C14_refusal_leaves_output_compress.
 Print Assumptions C14_pin_mismatch_refused.
 Print Assumptions C14_pin_checked_before_output.
+Print Assumptions C14_clone_refusal_exact.
+Print Assumptions C14_compress_refusal_exact.
